@@ -480,7 +480,7 @@ def leaf_origins(prog, fn, op, at=None, depth=0, _seen=None):
                 out += leaf_origins(prog, fn, x, o.block, depth + 1, seen)
         elif o.kind == "call" and o.data.get("args") and (
                 (o.data.get("callee") or "") in CONV_CALLEES
-                or (o.data.get("callee") or "").startswith(("core::result::Result", "core::option::Option", "core::num::"))
+                or (o.data.get("callee") or "").startswith(("core::result::Result", "core::option::Option", "core::num::", "core::ops::arith::"))
                 or (o.data.get("callee") or "").startswith("abyssiniandb::filedb::inner::semtype::")):
             out.append(o)
             for x in o.data["args"]:
